@@ -12,7 +12,7 @@ import itertools
 from fractions import Fraction
 import common
 from common import enc, dec, err_kind
-from props import c16x
+from props import c16x, c16k
 
 ID = "C16"
 RULE = ("exhaustive small histories (all op words over {add(d,len), next} up to a length, all batch "
@@ -50,16 +50,26 @@ TRUSTED = [
     "closed inner mixer as the list of what the model says it still yields (driver: drainX); a ControlStream event "
     "as the list of the values it has at the reads of the history, aligned with the spec's start formula "
     "max(ceil(T-1/2), samples delivered) computed in Python (c16x._ctl_items)",
-    "the Python type of a sample is checked only where the theorems pin it: an idle sample is the zero value "
-    "itself (zero_after_end), a float zero makes every sample a float",
+    "entry streamix_sys: the Python type of a sample is checked only for idle samples (the zero value itself) and "
+    "float zeros; entry streamix_k checks value AND type of every sample against the machine over PyNum "
+    "(ALV/Model/C16K.lean: kind bool < int < Fraction < float < complex, `+` gives the larger kind, at least int; "
+    "theorem typed_sample).  Modelled, not verified: that table of Python's numeric coercion; -0.0 is outside it",
+    "entry streamix_k: object k of the model = the iterator object the k-th accepted add put into _not_playing "
+    "(read back from smix._not_playing[-1][1] right after the add)",
+    "entry streamix_mut: a sample is recorded as a snapshot list(v) at the moment it is yielded; the impl is compared "
+    "with the spec (zero + items due: the property, theorem mutable_zero_refuted says the current code fails it = known "
+    "finding D28) and, when it differs, with the machine with a mutable cell (krun, theorem mutable_zero_accumulates)",
 ]
 ASSUMPTIONS = [
     "deltas and data are exact in binary floating point (dyadic, bounded) in the tie; the theorems are over all rationals",
-    "each event's data is a fresh iterable (one iterator object is not added twice; hub copies are independent); "
+    "each event's data is a fresh iterable (one iterator object is not added twice — on the real code two entries of "
+    "one iterator share its items and `list.remove` drops the first of them; hub copies are independent); "
     "an event's iterator raises at most once and is then finished (generators)",
     "a mixer used as the data of another one has keep off and is not touched afterwards; a ControlStream is added "
     "as an event at most once",
     "ControlStream reads are next()/take()/reads through .map(); peek()/copy() buffer values by design and are outside the property",
+    "deltas are finite (inf / nan are accepted by add and block the queue for ever: not in the model); a Stream / "
+    "ControlStream as zero (every sample a new Stream object) is outside the model",
 ]
 
 MANIFEST = {
@@ -71,14 +81,19 @@ MANIFEST = {
             "(ALV/Model/C16X): for every history that also contains adds whose iter(data) raises and items / "
             "additions that raise, the machine shows what the spec shows on the history WITHOUT the failed adds "
             "(a failed add leaves the state unchanged, T_i sums only the deltas of the adds that succeeded), the "
-            "first exception in summing order is the one raised, and a raising read finishes the generator.  Tied "
+            "first exception in summing order is the one raised, and a raising read finishes the generator.  Round 4: the prune step with identities "
+            "(any number of events finishing on one sample: _playing afterwards = the unfinished objects in order, "
+            "prune_removes_exactly_finished / playing_after_next), value and Python type of every sample for any zero "
+            "(typed_sample, idle_sample_is_zero), a mutable zero (mutable_zero_accumulates / _refuted), the traced runs "
+            "(ptrace_is_prun / xtrace_is_xrun).  Tied "
             "to /repo by stepping the real objects through the same histories (outputs, exceptions, StopIteration, "
             "container sizes, the generator frame's count; several mixers, shared StreamTeeHub copies, mixers and "
             "ControlStreams as events, spellings and call shapes) in the exact (dyadic) regime",
     "note": "Trusted: Lean kernel, axioms propext/Classical.choice/Quot.sound, the Python harness; models are hand "
             "written (event data = finite lists, generator protocol not modelled below the level of one next(); an "
             "exception through the generator finishes it); floating-point rounding of non-dyadic deltas, inf / nan "
-            "deltas, a mutable zero (list) and a Stream as zero are outside the theorems",
+            "deltas, one iterator object added twice, an inner mixer operated on after being added, -0.0 and a Stream "
+            "as zero are outside the theorems",
 }
 
 # ----------------------------------------------------------------------------------------------
@@ -329,6 +344,8 @@ def _exact_ok(c):
         return True
     if c["entry"] == "streamix_sys":
         return c16x.valid(c)
+    if c["entry"] in ("streamix_k", "streamix_mut"):
+        return c16k.valid(c)
     seq = c["entry"] == "streamix_seq"
     Tsum = Fraction(0)
     if c.get("tol") and (c["zk"] != "int" or c.get("defaults")):
@@ -378,6 +395,8 @@ def _generate(rng, tier, scale=1):
         cases += c16x.exhaustive(tier)
     for i in range((2500 if tier == "quick" else 30000) * scale):
         cases.append(c16x.random_case(rng, big=(i % 4 == 0)))
+    # value AND type of every sample, identities in the containers, events finishing together, a mutable zero (c16k)
+    cases += c16k.generate(rng, tier, scale)
     return cases
 
 
@@ -468,6 +487,8 @@ def impl(c):
             return _impl_control(c)
         if c["entry"] == "streamix_sys":
             return c16x.impl(c)
+        if c["entry"] in ("streamix_k", "streamix_mut"):
+            return c16k.impl(c)
         return _impl_streamix(c)
     except Exception as e:
         return {"err": err_kind(e)}
@@ -476,6 +497,8 @@ def impl(c):
 def request(c):
     if c["entry"] == "streamix_sys":
         return c16x.request(c)
+    if c["entry"] in ("streamix_k", "streamix_mut"):
+        return c16k.request(c)
     if c["entry"] == "control":
         return {"entry": "control", "init": c["init"], "ops": c["ops"]}
     ops = []
@@ -538,6 +561,8 @@ def compare(c, io, drv):
     out = []
     if c["entry"] == "streamix_sys":
         return c16x.compare(c, io, drv)
+    if c["entry"] in ("streamix_k", "streamix_mut"):
+        return c16k.compare(c, io, drv)
     if "err" in io:
         return [("model", "impl raised " + io["err"]), ("spec", "impl raised " + io["err"])]
     if c["entry"] == "control":
@@ -564,6 +589,8 @@ def nontrivial(c, io):
         return False
     if c["entry"] == "streamix_sys":
         return c16x.nontrivial(c, io)
+    if c["entry"] in ("streamix_k", "streamix_mut"):
+        return c16k.nontrivial(c, io)
     if c["entry"] == "control":
         seen_set = False
         for op in c["ops"]:
@@ -583,6 +610,8 @@ def tally(eng, c, io):
     eng.count("entry", c["entry"])
     if c["entry"] == "streamix_sys":
         return c16x.tally(eng, c, io)
+    if c["entry"] in ("streamix_k", "streamix_mut"):
+        return c16k.tally(eng, c, io)
     if "err" in io:
         eng.count("impl_error", io["err"])
         return
@@ -666,6 +695,10 @@ def _shrink(c):
         for x in c16x.shrink(c):
             yield x
         return
+    if c["entry"] in ("streamix_k", "streamix_mut"):
+        for x in c16k.shrink(c):
+            yield x
+        return
     ops = c["ops"]
     if c["entry"] == "control":
         for i in range(len(ops)):
@@ -712,6 +745,10 @@ def _neighbours(c):
         for x in c16x.neighbours(c):
             yield x
         return
+    if c["entry"] in ("streamix_k", "streamix_mut"):
+        for x in c16k.neighbours(c):
+            yield x
+        return
     if c["entry"] == "control":
         yield dict(c, ops=c["ops"] + [{"op": "read"}])
         return
@@ -738,6 +775,8 @@ def _kind(o):
 def classify(c, io, drv):
     if c["entry"] == "streamix_sys":
         return c16x.classify(c, io, drv)
+    if c["entry"] in ("streamix_k", "streamix_mut"):
+        return c16k.classify(c, io, drv)
     if "err" in io:
         return c["entry"] + ":" + io["err"]
     if c["entry"] == "control":
